@@ -46,8 +46,16 @@ def module_ast(relpath):
 
 
 def _walk_body(body, name):
+    # ``attr@setter``: the function decorated with ``@attr.setter`` (a property's setter carries the getter's name)
+    want_setter = name.endswith("@setter")
+    if want_setter:
+        name = name[: -len("@setter")]
     for node in body:
         if isinstance(node, (ast.FunctionDef, ast.ClassDef, ast.AsyncFunctionDef)) and node.name == name:
+            if want_setter and not any(isinstance(d, ast.Attribute) and d.attr == "setter" for d in getattr(node, "decorator_list", [])):
+                continue
+            if not want_setter and any(isinstance(d, ast.Attribute) and d.attr == "setter" for d in getattr(node, "decorator_list", [])):
+                continue
             return node
         # look inside if/try at module or class level (e.g. ``if x: def f``)
         if isinstance(node, (ast.If, ast.Try)):
@@ -56,7 +64,7 @@ def _walk_body(body, name):
                 for h in node.handlers:
                     subs += h.body
                 subs += node.finalbody
-            found = _walk_body(subs, name)
+            found = _walk_body(subs, name + ("@setter" if want_setter else ""))
             if found is not None:
                 return found
     return None
